@@ -48,13 +48,14 @@ pub struct Mix {
     pub weak_pairs: u32,
     pub fin_objs: u32,
     pub hide: u32,
+    pub dense: u32,
     pub alloc_opts: u32,
     pub nursery_gc: bool,
     pub old_young: u32,
 }
 
 impl Mix {
-    pub const BASIC: Mix = Mix { big: true, sems: true, weak: false, finalizers: false, ephemerons: false, pins: false, region_copy: true, gc_weight: 6, churn_weight: 3, probes: 0, mutator_ops: true, fork: 0, weak_pairs: 0, fin_objs: 0, hide: 0, alloc_opts: 0, nursery_gc: true, old_young: 2 };
+    pub const BASIC: Mix = Mix { big: true, sems: true, weak: false, finalizers: false, ephemerons: false, pins: false, region_copy: true, gc_weight: 6, churn_weight: 3, probes: 0, mutator_ops: true, fork: 0, weak_pairs: 0, fin_objs: 0, hide: 0, dense: 1, alloc_opts: 0, nursery_gc: true, old_young: 2 };
 }
 
 pub fn op(mix: Mix) -> BoxedStrategy<Op> {
@@ -109,6 +110,9 @@ pub fn op(mix: Mix) -> BoxedStrategy<Op> {
     }
     if mix.fin_objs > 0 {
         v.push((mix.fin_objs, (any::<u8>(), any::<u8>(), 0u8..6, 1u8..3, prop::bool::weighted(0.75)).prop_map(|(m, root, n, regs, drop)| Op::FinObj { m, root, n, regs, drop }).boxed()));
+    }
+    if mix.dense > 0 {
+        v.push((mix.dense, (any::<u8>(), any::<u8>(), 0u8..32, prop_oneof![3 => Just(0u8), 1 => Just(8u8), 1 => Just(32u8), 1 => 0u8..100], 0u8..4).prop_map(|(m, root, n, extra, keep)| Op::DenseFill { m, root, n, extra, keep }).boxed()));
     }
     if mix.hide > 0 {
         v.push((mix.hide, (any::<u8>(), any::<u8>(), any::<u8>()).prop_map(|(m, src, dst)| Op::Hide { m, src, dst }).boxed()));
@@ -223,8 +227,8 @@ pub fn c10_case() -> BoxedStrategy<Case> {
     // Heaps of at least 9 MiB: every contiguous space reserves max(2 x heap, 8 MiB) of virtual memory minus one
     // chunk for its free-list table, so in smaller heaps a copying GC over a nearly full heap can run out
     // of *virtual* space (known finding C01 panic@src/policy/space.rs:246, which is not what C10 is about).
-    (0..plans.len(), any::<u8>(), 1u8..4, 9000u32..20000, 30u8..90, prop::collection::vec(op(mix), 10..50))
-        .prop_map(move |(pi, v, workers, heap_kb, fill_pct, tail)| {
+    (0..plans.len(), any::<u8>(), 1u8..4, 9000u32..20000, 30u8..90, prop::collection::vec(op(mix), 10..50), prop_oneof![2 => Just(0u8), 1 => 10u8..70])
+        .prop_map(move |(pi, v, workers, heap_kb, fill_pct, tail, dyn_min_pct)| {
             let plan = plans[pi];
             // StickyImmix copies every young survivor in a nursery GC: keep the reachable young volume below
             // half of the heap so that the copies fit into the reserved extent (same known finding).
@@ -243,7 +247,10 @@ pub fn c10_case() -> BoxedStrategy<Case> {
                 }
             }
             ops.extend(tail);
-            Case { plan: plan.to_string(), variant: variant_for(plan, v), heap_kb, dyn_heap: None, workers, mutators: 1, opts: vec![], copy_spin: 0, focus: "C10".into(), ops }
+            // a third of the cases run with DynamicHeapSize(min, max = heap_kb): the current heap size then
+            // starts below the maximum, and "larger than the maximum heap" differs from "larger than the heap now"
+            let dyn_heap = if dyn_min_pct > 0 { Some(((heap_kb as u64 * dyn_min_pct as u64 / 100) as u32, heap_kb)) } else { None };
+            Case { plan: plan.to_string(), variant: variant_for(plan, v), heap_kb, dyn_heap, workers, mutators: 1, opts: vec![], copy_spin: 0, focus: "C10".into(), ops }
         })
         .boxed()
 }
